@@ -51,26 +51,32 @@ func VerifH_C14_PublicKey() {
 }
 
 func VerifH_C14_RelinearizationKey() {
-	sets, ns := []int{0}, []int{2}
+	sets, ns := []int{0, 2}, []int{2}
 	if vTier() > 0 {
-		sets, ns = []int{0, 1}, []int{1, 3}
+		sets, ns = []int{0, 1, 2}, []int{1, 3}
 	}
 	for _, set := range sets {
 		for _, n := range ns {
 			c := vInit(set, n)
 			tag := "set" + vItoa(set) + "-n" + vItoa(n)
+			// set 2: no auxiliary modulus, primes of 7 and 14 bits, power-of-two digits of 4 bits: the RNS rows have
+			// different digit counts (2 and 4)
+			var evkp []rlwe.EvaluationKeyParameters
+			if set == 2 {
+				evkp = []rlwe.EvaluationKeyParameters{{BaseTwoDecomposition: vIntP(4)}}
+			}
 			eph := make([]*rlwe.SecretKey, n)
 			r1 := make([]RelinearizationKeyGenShare, n)
 			r2 := make([]RelinearizationKeyGenShare, n)
 			crp := make([]RelinearizationKeyGenCRP, n)
 			for i := 0; i < n; i++ {
 				p := c.Parties[i]
-				crp[i] = p.RKG.SampleCRP(p.CRS)
-				eph[i], r1[i], r2[i] = p.RKG.AllocateShare()
+				crp[i] = p.RKG.SampleCRP(p.CRS, evkp...)
+				eph[i], r1[i], r2[i] = p.RKG.AllocateShare(evkp...)
 				p.RKG.GenShareRoundOne(p.Sk, crp[i], eph[i], &r1[i])
 			}
 			rkg := c.Parties[0].RKG
-			_, agg1, agg2 := rkg.AllocateShare()
+			_, agg1, agg2 := rkg.AllocateShare(evkp...)
 			for i := 0; i < n; i++ {
 				if i == 0 {
 					agg1.GadgetCiphertext = *r1[0].GadgetCiphertext.CopyNew()
@@ -89,7 +95,7 @@ func VerifH_C14_RelinearizationKey() {
 					rkg.AggregateShares(r2[i], agg2, &agg2)
 				}
 			}
-			rlk := rlwe.NewRelinearizationKey(c.Params)
+			rlk := rlwe.NewRelinearizationKey(c.Params, evkp...)
 			rkg.GenRelinearizationKey(agg1, agg2, rlk)
 			// functional check: relinearise a degree-2 ciphertext under the ideal secret
 			eval := c.Eval.WithKey(rlwe.NewMemEvaluationKeySet(rlk))
